@@ -40,7 +40,7 @@ const char* kname[] = {"entryGuard", "enter", "reenter", "update", "exit", "plan
 struct Rec { uint8_t kind, sid; uint8_t origin, dest; uint32_t pay; bool hasPay; };
 Rec g_log[64];
 unsigned g_n = 0;
-int g_succeedIn = -1, g_failIn = -1;
+int g_succeedIn = -1, g_failIn = -1, g_vetoEntryOf = -1;
 
 #if WIDE_CAP
 using M = ffsm2::MachineT<ffsm2::Config::PayloadT<uint32_t>::TaskCapacityN<WIDE_CAP>>;
@@ -70,7 +70,7 @@ void rec0(uint8_t kind, uint8_t sid) { if (g_n < 64) g_log[g_n] = Rec{kind, sid,
 
 template <unsigned I>
 struct W : FSM::State {
-	void entryGuard(GuardControl& c) { rec(ENTRY_GUARD, I, c.pendingTransition()); }
+	void entryGuard(GuardControl& c) { rec(ENTRY_GUARD, I, c.pendingTransition()); if (g_vetoEntryOf == static_cast<int>(I)) c.cancelPendingTransition(); }
 	void enter(PlanControl& c) { rec(ENTER, I, c.currentTransition()); }
 	void reenter(PlanControl& c) { rec(REENTER, I, c.currentTransition()); }
 	void update(FullControl& c) {
@@ -314,6 +314,31 @@ void runFiring(Instance& m) {
 			if (count(ENTRY_GUARD) || m.activeStateId() != k3) viol("C08", "fire-origin-not-active", K + ": task " + planStr(model) + " fired while " + std::to_string(k3) + " is active: [" + logStr() + "]");
 			if (count(PLAN_SUCCEEDED)) viol("C09", "planSucceeded-with-tasks-remaining", K + ": [" + logStr() + "]");
 			expectPlan(m, model, "C08", "unfired-tasks-left-or-reordered", K + " after a success of another state");
+		}
+		// a fired task whose transition is vetoed: the task is gone and its success report is used up - the next task of the
+		// same origin waits for a new report
+		{
+			m.plan().clear();
+			model.clear();
+			const unsigned here = m.activeStateId();
+			const unsigned d1 = (here + 1) % N, d2 = (here + 2) % N;
+			if (m.plan().change(static_cast<StateID>(here), static_cast<StateID>(d1))) {
+				g_vetoEntryOf = static_cast<int>(d1);
+				step(m, static_cast<int>(here), -1);
+				g_vetoEntryOf = -1;
+				if (m.activeStateId() != here || count(ENTER)) viol("C03", "vetoed-destination-entered", K + ": entry guard of " + std::to_string(d1) + " cancelled, update() ran [" + logStr() + "]");
+				expectPlan(m, model, "C08", "fired-task-not-removed-or-unfired-task-removed", K + " after a fire whose transition was vetoed");
+				// a new task of the same origin, no new report
+				if (m.plan().change(static_cast<StateID>(here), static_cast<StateID>(d2))) {
+					model.push_back(T3{here, d2, false, 0});
+					step(m, -1, -1);
+					if (count(ENTRY_GUARD) || m.activeStateId() != here)
+						viol("C08", "fire-without-success-report|report-already-consumed", K + ": task " + std::to_string(here) + ">" + std::to_string(d2) + " fired in a cycle without a new success report (the earlier one was consumed by the task before it): [" + logStr() + "]");
+					if (count(PLAN_SUCCEEDED) || count(PLAN_FAILED)) viol("C09", "outcome-without-report", K + ": [" + logStr() + "]");
+					expectPlan(m, model, "C08", "unfired-tasks-left-or-reordered", K + " after a cycle without reports");
+				}
+				g_stats.add("vetoed_fires_checked");
+			}
 		}
 		// failure of the active state with a non-empty plan: planFailed, plan emptied, nothing fires
 		m.plan().clear();
